@@ -48,11 +48,10 @@ def run_case(exe, rundir, case, timeout=60, keep=False):
     args = [exe, stub] + case.get("args", ["-AMPL"]) + list(case.get("opts", []))
     t0 = time.time()
     try:
-        pre = None
-        if case.get("ignore_signals"):      # started with SIGINT / SIGTERM ignored (as a shell's background job is)
-            import signal as _sg
-            pre = lambda: (_sg.signal(_sg.SIGINT, _sg.SIG_IGN), _sg.signal(_sg.SIGTERM, _sg.SIG_IGN))
-        p = subprocess.run(args, capture_output=True, timeout=timeout, env=env, cwd=d, preexec_fn=pre)
+        if case.get("ignore_signals"):      # started with SIGINT / SIGTERM ignored (as a shell's background job is):
+            # through a shell that ignores them and execs the driver (no preexec_fn: this runs in threads)
+            args = ["/bin/sh", "-c", "trap '' INT TERM; exec \"$0\" \"$@\""] + args
+        p = subprocess.run(args, capture_output=True, timeout=timeout, env=env, cwd=d)
         rc, so, se = p.returncode, p.stdout.decode("latin-1"), p.stderr.decode("latin-1")
         hang = False
     except subprocess.TimeoutExpired:
